@@ -15,7 +15,9 @@ canonical spelling decides the same property for every spelling:
 
 * ``x: T = e`` on a plain local name inside a function  ->  ``x = e`` (annotations of locals are never
   evaluated; the annotation is kept on the node as ``_annotation`` for the type environment);
-* ``pass`` statements are dropped from bodies that contain anything else.
+* ``pass`` statements are dropped from bodies that contain anything else;
+* ``if c: A else: B`` where ``A`` always leaves (ends in return / raise / continue / break)  ->
+  ``if c: A`` followed by ``B`` (the classic "no else after return" form; both have the same paths).
 
 Only single-operator comparisons are touched; chained comparisons, ``==``, ``!=``, ``is``, ``in``
 are left alone.  Positions of moved nodes are kept, so reports still point at the source line.
@@ -60,6 +62,7 @@ class Canon(ast.NodeTransformer):
         self.generic_visit(node)
         self.fn_depth -= 1
         self._strip_pass(node)
+        self._flatten_else(node)
         return node
 
     visit_FunctionDef = _function
@@ -80,6 +83,32 @@ class Canon(ast.NodeTransformer):
             return new
         return node
 
+    @staticmethod
+    def _leaves(block) -> bool:
+        return bool(block) and isinstance(block[-1], (ast.Return, ast.Raise, ast.Continue, ast.Break))
+
+    def _flatten_else(self, node):
+        """``if c: ...return`` + else branch -> the else branch follows the if."""
+        for fld in ("body", "orelse", "finalbody"):
+            b = getattr(node, fld, None)
+            if not (isinstance(b, list) and b and isinstance(b[0], ast.stmt)):
+                continue
+            out, changed = [], False
+            for st in b:
+                if isinstance(st, ast.If) and st.orelse and self._leaves(st.body):
+                    tail, st.orelse = st.orelse, []
+                    out.append(st)
+                    out.extend(tail)
+                    changed = True
+                    self.count += 1
+                else:
+                    out.append(st)
+            if changed:
+                # newly exposed ifs of an elif chain are handled by repeating until stable
+                setattr(node, fld, out)
+                self._flatten_else(node)
+                return
+
     def _strip_pass(self, node):
         for fld in ("body", "orelse", "finalbody"):
             b = getattr(node, fld, None)
@@ -92,11 +121,23 @@ class Canon(ast.NodeTransformer):
         super().generic_visit(node)
         if isinstance(node, (ast.If, ast.For, ast.AsyncFor, ast.While, ast.With, ast.AsyncWith, ast.Try, ast.ExceptHandler, ast.match_case)):
             self._strip_pass(node)
+            if self.fn_depth:
+                self._flatten_else(node)
         return node
 
     def visit_If(self, node: ast.If):
         self.generic_visit(node)
-        if node.orelse and isinstance(node.test, ast.UnaryOp) and isinstance(node.test.op, ast.Not):
+        if not node.orelse:
+            return node
+        negated = isinstance(node.test, ast.UnaryOp) and isinstance(node.test.op, ast.Not)
+        if self._leaves(node.body):
+            return node  # guard form already; the else branch is hoisted by the enclosing body
+        if self.fn_depth and self._leaves(node.orelse):
+            # the leaving branch becomes the guard: ``if c: A else: return``  ->  ``if not c: return`` + A
+            self.count += 1
+            test = node.test.operand if negated else ast.copy_location(ast.UnaryOp(op=ast.Not(), operand=node.test), node.test)
+            return ast.copy_location(ast.If(test=test, body=node.orelse, orelse=node.body), node)
+        if negated:
             self.count += 1
             return ast.copy_location(ast.If(test=node.test.operand, body=node.orelse, orelse=node.body), node)
         return node
